@@ -419,6 +419,14 @@ class Walker:
     def node_DataDeclaration(self, n):
         self.generic(n)
 
+    def node_Intrinsic(self, n):
+        # Cray pointer statement POINTER(ptr, pointee): declares ptr (an integer)
+        for m in re.finditer(r'pointer\s*\(\s*(\w+)\s*,', str(getattr(n, 'text', '')), re.I):
+            self.info.declared.add(m.group(1).lower())
+        self.generic(n)
+
+    node_GenericStmt = node_Intrinsic
+
     def node_Allocation(self, n):
         self.generic(n)
 
@@ -674,7 +682,7 @@ def prepare_modules(workdir, sources):
     return diffexec.syntax_check(workdir, sources)
 
 
-def check_compile(workdir, name, text, incdirs=(), timeout=90):
+def check_compile(workdir, name, text, incdirs=(), timeout=300, fflags=()):
     """(d) gfortran -fsyntax-only; returns (ok, detail, timed_out)"""
     workdir = Path(workdir)
     workdir.mkdir(parents=True, exist_ok=True)
@@ -682,7 +690,7 @@ def check_compile(workdir, name, text, incdirs=(), timeout=90):
     extra = []
     for d in incdirs:
         extra += ['-I', str(d)]
-    rc, _, err = diffexec._run(['gfortran', '-fsyntax-only', '-ffree-line-length-none', '-w', '-cpp'] + extra + [name],
+    rc, _, err = diffexec._run(['gfortran', '-fsyntax-only', '-ffree-line-length-none', '-w', '-cpp'] + list(fflags) + extra + [name],
                                workdir, timeout)
     if rc == -999:
         return False, 'TIMEOUT', True
